@@ -122,6 +122,40 @@ CASES = [
     ("abstract callee never called", "from . import linalg\ndef f(a):\n    return a[0]\n",
      spec_for(LF, "float", abstract_calls={"linalg.point_distance": {"param": "dist", "type": "fn(list[float],list[float])->float"}}),
      "never called"),
+    ("None placeholders: arithmetic on a slot unwraps it (TypeError for None)",
+     "def f(a):\n    b = [None for _ in a]\n    b[0] = a[0]\n    return b[0] + 1.0\n", spec_for(LF, "float"), None),
+    ("None as a value of a non-list type", "def f(a):\n    return None\n", spec_for(LF, "float"), "type mismatch"),
+    ("constant propagation of a flag: the dead branch need not type-check",
+     "def f(a):\n    flag = True\n    if len(a) == len(a):\n        pass\n    if flag:\n        b = [x for x in a]\n    else:\n        b = [[x] for x in a]\n    return b\n",
+     spec_for(LF, "list[float]"), None),
+    ("a flag assigned under a run-time condition is not a constant",
+     "def f(a):\n    flag = True\n    if len(a) > 1:\n        flag = False\n    if flag:\n        b = [x for x in a]\n    else:\n        b = [[x] for x in a]\n    return b\n",
+     spec_for(LF, "list[float]"), "type mismatch"),
+    ("a flag assigned in a loop is not a constant",
+     "def f(a):\n    flag = True\n    for x in a:\n        flag = False\n    if flag:\n        b = [x for x in a]\n    else:\n        b = [[x] for x in a]\n    return b\n",
+     spec_for(LF, "list[float]"), "type mismatch"),
+    ("loop variable after a loop over range(0, n) with n >= 1 known translates",
+     "def f(a, n):\n    if n < 1:\n        return 0\n    s = 0\n    for t in range(0, n):\n        s += t\n    return s + t\n",
+     spec_for({"a": "list[float]", "n": "int"}, "int"), None),
+    ("loop variable after a loop whose range may be empty",
+     "def f(a, n):\n    s = 0\n    for t in range(0, n):\n        s += t\n    return s + t\n",
+     spec_for({"a": "list[float]", "n": "int"}, "int"), "not (definitely) bound"),
+    ("loop variable after the loop: the bound is reassigned",
+     "def f(a, n):\n    if n < 1:\n        return 0\n    n = n - 1\n    s = 0\n    for t in range(0, n):\n        s += t\n    return s + t\n",
+     spec_for({"a": "list[float]", "n": "int"}, "int"), "not (definitely) bound"),
+    ("two while loops, the second inside a branch, each with its fuel",
+     "def f(a, n):\n    i = 0\n    while i < n:\n        i += 1\n    if n > 2:\n        j = 0\n        while j < n:\n            j += 1\n            i += 1\n    return i\n",
+     spec_for({"a": "list[float]", "n": "int"}, "int", fuel=["n + 1", "n + 1"]), None),
+    ("a list as a condition / under not translates",
+     "def f(a):\n    b = list()\n    if a:\n        b = b + a\n    if not b:\n        return 0.0\n    return b[0]\n", spec_for(LF, "float"), None),
+    ("sorted(set(l)) translates", "def f(a):\n    return sorted(set(a))\n", spec_for(LF, "list[float]"), None),
+    ("set() alone is not understood", "def f(a):\n    b = set(a)\n    return a\n", spec_for(LF, "list[float]"), "not a translated function"),
+    ("loop variable after a possibly empty range, checked at run time (spec flag)",
+     "def f(a, n):\n    s = 0\n    for t in range(0, n):\n        s += t\n    return s + t\n",
+     spec_for({"a": "list[float]", "n": "int"}, "int", loop_var_after_loop="checked"), None),
+    ("a later loop over the same variable is not a read of the old one",
+     "def f(a, n):\n    s = 0\n    for j in range(0, n):\n        s += j\n    for j in range(0, n):\n        s += j\n    j = 3\n    return s + j\n",
+     spec_for({"a": "list[float]", "n": "int"}, "int"), None),
     ("abstract callee translates", "from . import linalg\ndef f(a):\n    return linalg.point_distance(a, a)\n",
      spec_for(LF, "float", abstract_calls={"linalg.point_distance": {"param": "dist", "type": "fn(list[float],list[float])->float"}}),
      None),
